@@ -259,7 +259,7 @@ RefStep(h, ev, nc) ==
       rebuild == ev.e \in {"SetNumChips", "SwitchEmu", "SetRunAtPcm", "SetChipType", "OpenBank", "Reset"}
       ex == IF h1.rel = {} THEN 0 ELSE h1.extra
   IN [h1 EXCEPT !.nc = nc, !.extra = ex,
-                !.polyOK = (IF rebuild THEN TRUE ELSE h.polyOK) /\ Cardinality(Held(h1)) + ex <= nc - 1,
+                !.polyOK = (IF rebuild THEN TRUE ELSE h.polyOK) /\ Cardinality(h1.down) + Cardinality(h1.rel) + ex <= nc - 1,
                 !.quiet = IF ev.e = "Gen" /\ AllReleased(h1) THEN Min(h.quiet + ev.us, 100000000) ELSE 0]
 
 ---------------------------------------------------------------------------
